@@ -309,6 +309,7 @@ def run_sharded(case, prop_id):
     W = S["R"] * S["S"]
     counters = {"evals": 0, "bitwise_steps": 0, "tolerance_steps": 0, "replica_comparisons": 0, "collectives_logged": 0, "group_creations_logged": 0, "shards_compared": 0, "set_interleavings": []}
     desc = {k: S[k] for k in ("G_arg", "pdts", "mode", "R", "S", "G", "comm", "communicate_params", "cfg", "shapes", "ranges", "cut_kind", "presence_kind", "presence", "T")}
+    ledger_excerpt = None
     for il in range(case["interleavings"]):
         world = ranksim.World(W, interleave_seed=hash((tuple(map(str, case["seed"])), il)) & 0xFFFFFF)
         from ..common import KernelObserver
